@@ -93,6 +93,36 @@ def ports(ctx) -> int:
                 if c[0] == "call" and c[2] and pmatch("Q_m.shape.width // Q_g", c[2][0]) is not None:
                     sized_in_bits = True
                     site = s.site
+    # the initial contents are handed to several inner memories: they are materialised once (F10)
+    inits = [s for ex in base.exs for s in ex.of(Store) if s.target == ("a", ("self",), "init")]
+    pinit = [a for a in base.fi.node.args.kwonlyargs + base.fi.node.args.args if a.arg == "init"]
+    n += 1
+    okm = bool(inits) and all(s.value[0] == "call" and s.value[1] in (("n", "list"), ("n", "tuple")) and len(s.value[2]) == 1 and s.value[2][0][0] == "p" and s.value[2][0][-1] == "init" for s in inits)
+    ctx.check(okm, "C23.init-materialised", inits[0].site if inits else base.site, "BaseMultiportMemory.init", found="; ".join(tstr(s.value) for s in inits) or "not stored",
+              required="list(init): every replica / bank 0 / every mirror of bank 0 is built from the same contents, an iterator would be used up by the first")
+    # storage exists per write port: a memory without write ports (a ROM) must still hold its initial contents (F11)
+    for qual in ("MultiportXORMemory.elaborate", "MultiportILVTMemory.elaborate"):
+        fe = Fn(ctx.repo, REL, qual, "C23")
+        guard = [(ex, e) for ex, e in fe.facts(Effect) if e.call == ("call", ("a", ("self",), "write_port"), (), ())]
+        okg = False
+        for ex, e in guard:
+            g = py_guard(e)
+            from ..logic import atoms_of as _ao, equivalent as _eq, f_not as _fn
+
+            ats = _ao(g)
+            okg = okg or (len(ats) == 1 and ats[0] == ("a", ("self",), "write_ports") and _eq(g, _fn(("atom", ats[0]))) is None and not loops(e))
+        # the call may also be recorded as the creation of an (unnamed) port object: then it exists exactly in the
+        # configurations decided by `self.write_ports` being empty
+        made = {}
+        for ex in fe.exs:
+            dec = [v for t, v in ex.config if t == ("a", ("self",), "write_ports")]
+            has_port = any(o.ctor == ("call", ("a", ("self",), "write_port"), (), ()) for o in ex.objects.values())
+            if dec:
+                made.setdefault(dec[0], set()).add(has_port)
+        okg = okg or (made.get(False) == {True} and made.get(True, {False}) == {False})
+        n += 1
+        ctx.check(okg, "C23.rom-has-storage", fe.site, qual, found="; ".join(tstr(e.call) for _, e in guard) or "banks are created only inside the loop over the write ports; nothing ensures there is one",
+                  required="`if not self.write_ports: self.write_port()` before the banks are built: bank 0, which holds init, exists even when no write port was requested")
     n += 1
     ctx.check(not (cast and sized_in_bits), "C23.granularity-units", site, "WritePort.en", found="row shape stored as Shape.cast(shape); enable sized as shape.width // granularity (bit groups)" if cast and sized_in_bits else "enable sized from the uncast shape",
               required="one enable bit per granule as amaranth.lib.memory counts them: `granularity` ELEMENTS of an ArrayLayout row, bits of a plain row")
